@@ -155,3 +155,60 @@ Fixpoint lookup (s : series) (t : Z) : option Q :=
   | (u, x) :: r => if u =? t then Some x else lookup r t
   end.
 Definition take_label (s : series) (w : list Z) : list (option Q) := map (lookup s) w.
+
+(* ---- call histories --------------------------------------------------------------------------- *)
+(* transform of a sub-stretch: the observations of s whose time point is kept *)
+Definition restrict (keep : Z -> bool) (s : series) : series := filter (fun p => keep (fst p)) s.
+
+(* The calls made on one estimator object, in order.  The fitted state is determined by the Fit /
+   Update calls alone: Transform / Inverse are QUERIES - they return a function of (current state,
+   passed series) and leave the state as it is.  update_params is the flag passed to update(). *)
+Inductive op :=
+  | Fit (y : series)
+  | Update (z : series) (params : bool)
+  | Transform (z : series)
+  | Inverse (z : series).
+Definition is_query (o : op) : bool :=
+  match o with Transform _ | Inverse _ => true | _ => false end.
+(* the history without its transform / inverse_transform calls *)
+Definition strip (h : list op) : list op := filter (fun o => negb (is_query o)) h.
+
+Section History.
+  Variable ST : Type.
+  Variable fit : series -> ST.
+  Variable update : ST -> series -> bool -> ST.
+  Variable transform inverse : ST -> series -> series.
+  (* None = not fitted yet *)
+  Definition step (st : option ST) (o : op) : option ST :=
+    match o with
+    | Fit y => Some (fit y)
+    | Update z p => match st with Some s => Some (update s z p) | None => None end
+    | Transform _ | Inverse _ => st
+    end.
+  Definition run (h : list op) : option ST := fold_left step h None.
+  (* what the call q returns when it is made after the calls h *)
+  Definition answer (h : list op) (q : op) : option series :=
+    match run h, q with
+    | Some s, Transform z => Some (transform s z)
+    | Some s, Inverse z => Some (inverse s z)
+    | _, _ => None
+    end.
+End History.
+
+(* WITNESS of the class of defect this excludes (never in /repo; seeded regression C13-c): a
+   Detrender whose transform remembers the in-sample trend of the training index the first time it
+   is asked for it, whose update never clears it, and whose inverse asks the current trend *)
+Record mstate := { m_trend : Z -> Q; m_train : list Z; m_cache : option (list Q) }.
+Definition memo_transform (st : mstate) (z : series) : series * mstate :=
+  if list_eq_dec Z.eq_dec (sindex z) (m_train st) then
+    match m_cache st with
+    | Some c => (series_arr_op Qminus z c, st)
+    | None => let c := predict_at (m_trend st) (sindex z) in
+              (series_arr_op Qminus z c,
+               {| m_trend := m_trend st; m_train := m_train st; m_cache := Some c |})
+    end
+  else (series_arr_op Qminus z (predict_at (m_trend st) (sindex z)), st).
+Definition memo_inverse (st : mstate) (z : series) : series := det_inverse (m_trend st) z.
+(* a refit: the trend function changes, the remembered in-sample trend stays *)
+Definition memo_update (st : mstate) (refitted : Z -> Q) : mstate :=
+  {| m_trend := refitted; m_train := m_train st; m_cache := m_cache st |}.
